@@ -251,6 +251,22 @@ func checkPrio(prop string, sc *PrioSc, res *simrt.Result) Verdict {
 
 	v := viewPrio(sc, res)
 
+	if prop == "C19" && v.newErr >= 0 {
+		// a constructor that failed must not leave anything of the discipline running
+		vd.fault("constructor-fails")
+
+		if alive := libTasksAlive(res); len(alive) > 0 {
+			vd.fail("goroutine-left-after-failed-constructor", "the constructor returned an error (bad option %q) and %d goroutine(s) it started remain at the end of the run: %v", sc.BadOpt, len(alive), alive)
+		}
+
+		return vd
+	}
+
+	if sc.BadOpt != "" {
+		vd.Skipped = "constructor accepted " + sc.BadOpt + " (not this property's business)"
+		return vd
+	}
+
 	if sc.Class == "createfault" {
 		if prop == "C15" {
 			checkCreateFault(&vd, v)
@@ -896,8 +912,9 @@ func checkDividerContract(vd *Verdict, v *prioView) {
 				return
 			}
 
-			if i > 0 && c.Slice[i-1] <= p {
-				vd.fail("divider-list-not-descending", "divider call #%d got priorities %v (must be distinct, highest first)", c.Val, c.Slice)
+			// priorities travel through the history as int: compare them as the uints they are
+			if i > 0 && uint(c.Slice[i-1]) <= uint(p) {
+				vd.fail("divider-list-not-descending", "divider call #%d got priorities %v (as int; must be distinct, highest first)", c.Val, c.Slice)
 				return
 			}
 		}
